@@ -308,7 +308,7 @@ def rule_writer_schema(ctx):
         st.write_leaf(USED, (), ("term", ("in", "used")))
         st.write_leaf(W, (), ("term", ("in", "w")))
     try:
-        outs = I.run(wc, [ref(IN), ref(USED), ref(W), {(): ("term", ("in", "max"))}], init)
+        outs = I.run(wc, [ref(IN), ref(USED), ref(W), {(): ("int", M)}], init)
     except (PathLimit, Unsupported) as e:
         ctx.incomplete(R, "interp", str(e))
         return
@@ -407,8 +407,8 @@ def rule_writer_schema(ctx):
     R_res = None
     if TW is not None:
         leaves = _flatten_min(TW)
-        rest = [l for l in leaves if l not in (("term", ("in", "max")), LEN)]
-        if ("term", ("in", "max")) not in leaves:
+        rest = [l for l in leaves if l not in (("int", M), LEN)]
+        if ("int", M) not in leaves:
             bad.append("the chunk length is not bounded by the maximum chunk")
         if LEN not in leaves:
             bad.append("the chunk length is not bounded by the input length")
